@@ -433,7 +433,7 @@ def explore(rec):
     quick = rec.tier == "quick"
     rec.enum("sequences<=3 x 8 capture combinations", enumeration())
     rec.hyp("random-programs", random_case(), 10000 if quick else 200000)
-    rec.hyp("cli", random_case().map(lambda c: dict(c, kind="cli")), 16 if quick else 200)
+    rec.hyp("cli", random_case().map(lambda c: dict(c, kind="cli")), 32 if quick else 400)
 
 
 def required_labels(tier):
